@@ -429,6 +429,15 @@ pub(crate) fn lemma_divrem(a: u32, b: u32) -> (u32, u32) {
             return (DR_LAST.3, DR_LAST.4);
         }
     }
+    // exact quotients a gcd model has already promised (its cofactors): reuse, do not re-derive
+    unsafe {
+        if DIV_TABLE[0].0 && DIV_TABLE[0].1 == a && DIV_TABLE[0].2 == b {
+            return (DIV_TABLE[0].3, 0);
+        }
+        if DIV_TABLE[1].0 && DIV_TABLE[1].1 == a && DIV_TABLE[1].2 == b {
+            return (DIV_TABLE[1].3, 0);
+        }
+    }
     let q: u32 = kani::any();
     let p = (q as u64) * (b as u64);
     kani::assume(p <= a as u64 && (a as u64) - p < b as u64);
@@ -440,6 +449,46 @@ pub(crate) fn lemma_divrem(a: u32, b: u32) -> (u32, u32) {
 }
 #[cfg(kani)]
 static mut DR_LAST: (bool, u32, u32, u32, u32) = (false, 0, 0, 0, 0);
+#[cfg(kani)]
+static mut DIV_TABLE: [(bool, u32, u32, u32); 2] = [(false, 0, 0, 0); 2];
+
+/// gcd CONTRACT model for one-limb operands (no Euclid loop): returns some g >= 1 with
+/// |a| = g*p and |b| = g*q (fresh cofactors; the two exact quotients are remembered for the
+/// division model) and an ARBITRARY sign.  This over-approximates every implementation that
+/// meets C05 ("magnitude is the gcd"): what is proved above it holds for the real gcd; a
+/// counterexample found above it may depend on a divisor/sign the real gcd never returns and is
+/// therefore only reported when it replays natively.
+#[cfg(kani)]
+pub(crate) fn m_gcd_contract(a: &BigNum, b: &BigNum) -> BigNum {
+    assert!(a.val.len() == 1 && b.val.len() == 1, "model: operand is not a one-limb value");
+    let (x, y) = (a.val[0], b.val[0]);
+    let pos: bool = kani::any();
+    if y == 0 {
+        // gcd(x, 0) = x with the sign of x (Euclid's loop does not run); covers NaN operands
+        unsafe {
+            GCD_LOG = x;
+            DIV_TABLE[0] = (x != 0, x, x, 1);
+            DIV_TABLE[1] = (false, 0, 0, 0);
+        }
+        return BigNum { pos: a.pos, val: vec![x] };
+    }
+    let g: u32 = kani::any();
+    let p: u32 = kani::any();
+    let q: u32 = kani::any();
+    kani::assume(g >= 1 && q >= 1);
+    kani::assume((g as u64) * (p as u64) == x as u64);
+    kani::assume((g as u64) * (q as u64) == y as u64);
+    unsafe {
+        GCD_LOG = g;
+        DIV_TABLE[0] = (true, x, g, p);
+        DIV_TABLE[1] = (true, y, g, q);
+    }
+    BigNum { pos, val: vec![g] }
+}
+#[cfg(not(kani))]
+pub(crate) fn m_gcd_contract(a: &BigNum, b: &BigNum) -> BigNum {
+    BigNum::gcd(a, b)
+}
 #[cfg(not(kani))]
 pub(crate) fn lemma_divrem(a: u32, b: u32) -> (u32, u32) {
     (a / b, a % b)
@@ -484,13 +533,41 @@ pub(crate) fn ref_gcd16(mut a: u16, mut b: u16) -> u16 {
     }
     a
 }
-/// gcd contract as far as C05 states it: right magnitude, ARBITRARY sign (16-bit operands)
+/// Euclid with truncating remainder (remainder takes the sign of the dividend, like BigNum::rem)
+/// on sign + 16-bit magnitude: the signs merely swap along the chain.
+pub(crate) fn ref_gcd_signed16(x: u16, sx: bool, y: u16, sy: bool) -> (u16, bool) {
+    let (mut a, mut b, mut sa, mut sb) = (x, y, sx, sy);
+    while b != 0 {
+        let t = a % b;
+        a = b;
+        b = t;
+        let ts = sa;
+        sa = sb;
+        sb = ts;
+    }
+    (a, sa)
+}
+/// exact functional model of BigNum::gcd on 16-bit operands: magnitude = gcd (what C05 states),
+/// sign = the sign Euclid's chain with truncating remainders ends on.  The sign part is the
+/// behaviour of the current source, not of the property; it is cross-checked against the real
+/// loop by `gcd_model_valid8` (kind=model) so that counterexamples found above this model
+/// replay natively.
 pub(crate) fn m_gcd16(a: &BigNum, b: &BigNum) -> BigNum {
     assert!(a.val.len() == 1 && b.val.len() == 1, "model: operand is not a one-limb value");
     assert!(a.val[0] < 65536 && b.val[0] < 65536, "model: operand outside the 16-bit domain");
-    let g = ref_gcd16(a.val[0] as u16, b.val[0] as u16);
-    let pos = any_bool();
+    let (g, pos) = ref_gcd_signed16(a.val[0] as u16, a.pos, b.val[0] as u16, b.pos);
+    unsafe {
+        GCD_LOG = g as u32;
+    }
     BigNum { pos: pos || g == 0, val: vec![g as u32] }
+}
+/// magnitude returned by the last modelled gcd call
+pub(crate) static mut GCD_LOG: u32 = 0;
+/// one-limb model of BigNum::new for symbolic arguments (the real constructor is decided by
+/// `new_isize`; its result length depends on the value, which a harness above must not inherit)
+pub(crate) fn m_new1(n: isize) -> BigNum {
+    assert!(n.unsigned_abs() < (1usize << 32), "model: value leaves the one-limb domain");
+    BigNum { pos: n >= 0, val: vec![n.unsigned_abs() as u32] }
 }
 
 // ---------------------------------------------------------------------------
@@ -633,4 +710,21 @@ pub fn assign_divrem_1x1() {
     assert!(q.val[0] == a.val[0] / b.val[0] && r.val[0] == a.val[0] % b.val[0]);
     vcover!();
     std::mem::forget((a, b, q, r, c, d));
+}
+
+// model validity (not a property check): the signed-Euclid model of gcd used by the C06 harnesses
+// agrees with the real BigNum::gcd (over the modelled rem) including the sign, 8-bit operands
+// @h prop=C06 unwind=14 timeout=600 mem=12 kind=model what=validity_of_the_gcd_model(sign_included)_against_the_real_loop
+#[cfg_attr(kani, kani::proof)]
+#[cfg_attr(kani, kani::stub(BigNum::rem, m_rem))]
+pub fn gcd_model_valid8() {
+    let (x, y, px, py) = (any_u8(), any_u8(), any_bool(), any_bool());
+    let a = BigNum { pos: px || x == 0, val: vec![x as u32] };
+    let b = BigNum { pos: py || y == 0, val: vec![y as u32] };
+    let g = BigNum::gcd(&a, &b);
+    let m = m_gcd16(&a, &b);
+    assert!(g.val.len() == 1 && g.val[0] == m.val[0]);
+    assert!(g.val[0] == 0 || g.pos == m.pos);
+    vcover!();
+    std::mem::forget((a, b, g, m));
 }
